@@ -666,7 +666,7 @@ def clone_op(r, names, n, act=None):
 
 
 def edit_ops(r, cfg, sp, nm):
-    k = G.wpick(r, [(2, "con"), (1.5, "obj"), (1, "guess"), (1, "value"), (0.8, "sym"), (0.6, "method"), (0.4, "T")])
+    k = G.wpick(r, [(2, "con"), (1.5, "obj"), (1, "guess"), (1, "value"), (0.8, "sym"), (0.6, "method"), (0.4, "T"), (0.7, "chain")])
     out = []
     N = (sp.method or {}).get("N", 2)
     if not sp.names("state"):
@@ -692,6 +692,21 @@ def edit_ops(r, cfg, sp, nm):
         out = [{"op": "sym", "name": "w%d" % n, "kind": "variable"},
                {"op": "subject_to", "expr": [">=", ["s", "w%d" % n], ["c", G.rnum(r, -2, 0)]]},
                {"op": "add_objective", "expr": ["sq", ["-", ["s", "w%d" % n], ["c", G.rnum(r)]]]}]
+    elif k == "chain":
+        # guesses that build on each other, given in their natural order (rockit evaluates a guess expression at the
+        # current starting point): a <- number, b <- 3 a + c, signal <- b * f(t).  The two links are variables of their
+        # own, never guessed again; the signal may get another guess later.
+        tg = [t for t, s_ in G.guess_targets(sp) if s_ is not None and s_["kind"] in ("state", "control") and s_.get("rows", 1) * s_.get("cols", 1) == 1]
+        n = 1
+        while sp.sym("k%da" % n):
+            n += 1
+        if tg and n <= 2:
+            a_, b_ = "k%da" % n, "k%db" % n
+            out = [{"op": "sym", "name": a_, "kind": "variable", "chain": True}, {"op": "sym", "name": b_, "kind": "variable", "chain": True},
+                   {"op": "add_objective", "expr": ["+", ["sq", ["-", ["s", a_], ["c", G.rnum(r)]]], ["sq", ["-", ["s", b_], ["c", G.rnum(r)]]]]},
+                   {"op": "set_initial", "x": a_, "g": ["num", G.rnum(r)]},
+                   {"op": "set_initial", "x": b_, "g": ["expr", ["+", ["*", ["c", 3.0], ["s", a_]], ["c", G.rnum(r)]]]},
+                   {"op": "set_initial", "x": G.pick(r, tg), "g": ["expr", ["*", ["s", b_], ["+", ["c", 1.0], G.gen_time_expr(r)]]]}]
     elif k == "method" and sp.method:
         out = [{"op": "method", "m": G.gen_method(r, cfg, sp, N=N)}]
     elif k == "T" and sp.T[0] in ("num", "free"):
